@@ -141,6 +141,19 @@ impl SwiftField for Field50A {
                 });
             }
 
+            // The lines are numbered 1, 2, 3, 4 in order: the number is not stored, so a line
+            // carrying another number would come back re-numbered
+            let line_num = line.chars().next().unwrap().to_digit(10).unwrap() as usize;
+            if line_num != i - start_index + 1 {
+                return Err(ParseError::InvalidFormat {
+                    message: format!(
+                        "Field 50A line number {} doesn't match expected {}",
+                        line_num,
+                        i - start_index + 1
+                    ),
+                });
+            }
+
             let text = &line[2..];
             if text.len() > 33 {
                 return Err(ParseError::InvalidFormat {
